@@ -94,7 +94,7 @@ inline Query genQuery(const Shape& s, int region, int sub, vh::Rng& r, const Vec
 
 inline double nearTol(const Shape& s) {
     // relative tolerance of on-surface / optimality checks, from the error model of the shipped algorithm
-    return s.kind == ELLIPSOID ? 1e-10 : 1e-11;
+    return s.kind == ELLIPSOID ? 1e-8 : 1e-11;
 }
 
 // ------------------------------------------------------------------ findNearestPoint
